@@ -135,7 +135,9 @@ example : action { fmt := true } [] {} = .fmt := by decide
 example : action { fmt := true } [] { parses := false } = .error .parse := by decide
 example : action { fmt := true } [] { loads := false } = .error .load := by decide
 example : action { fmt := true, quiet := true, debug := true } [] {} = .error .quietDebug := by decide
-example : action { init := true, fmt := true } [] { cwdSpokfile := true } = .error .initExists := by decide
+example : action { init := true, fmt := true } [] { cwdEntry := .file } = .error .initExists := by decide
+example : action { init := true } [] { cwdEntry := .linkFile } = .error .initExists := by decide
+example : action { init := true } [] { cwdEntry := .dangling, found := false } = .initialise := by decide
 example : action { init := true } ["x"] { found := false } = .initialise := by decide
 example : action {} [] { found := false } = .error .notFound := by decide
 example : action { spokfileGiven := true } [] { found := false, nameOk := false } = .error .badName := by decide
